@@ -9,17 +9,18 @@ import (
 	"os"
 	"path/filepath"
 	"runtime/debug"
+	"time"
 )
 
 type ReplayCase struct {
-	Harness  string      `json:"harness"`
-	Pkg      string      `json:"pkg"`
-	Vars     []string    `json:"vars"`
-	Vals     []uint64    `json:"vals"`
-	Choices  []int       `json:"choices"`
-	Outcome  string      `json:"outcome"`
-	Observes []ObsOut    `json:"observes"`
-	ID       int         `json:"id"`
+	Harness  string   `json:"harness"`
+	Pkg      string   `json:"pkg"`
+	Vars     []string `json:"vars"`
+	Vals     []uint64 `json:"vals"`
+	Choices  []int    `json:"choices"`
+	Outcome  string   `json:"outcome"`
+	Observes []ObsOut `json:"observes"`
+	ID       int      `json:"id"`
 }
 
 type ObsOut struct {
@@ -38,6 +39,7 @@ type ReplayResult struct {
 	Killed   bool        `json:"killed"`
 	Reached  []string    `json:"reached"`
 	Observed [][2]string `json:"observed"`
+	TimedOut bool        `json:"timed_out"`
 }
 
 // RunReplay executes the cases in $VERIF_REPLAY that belong to pkg and
@@ -85,7 +87,9 @@ func RunReplay(pkg string, harnesses map[string]func()) error {
 				os.MkdirAll(p, 0o755) // reading a directory fails with a non-NotExist error
 			}
 		}
-		func() {
+		done := make(chan struct{})
+		go func() {
+			defer close(done)
 			defer func() {
 				if r := recover(); r != nil {
 					if _, ok := r.(AssumeFailed); ok {
@@ -99,11 +103,26 @@ func RunReplay(pkg string, harnesses map[string]func()) error {
 			}()
 			f()
 		}()
+		select {
+		case <-done:
+		case <-time.After(replayWatchdog):
+			// the case does not return: report it and end this replay process (the
+			// goroutine cannot be stopped); the engine replays such cases last
+			results = append(results, ReplayResult{ID: c.ID, Harness: c.Harness, Ran: true, TimedOut: true})
+			return writeResults(pkg, results)
+		}
 		res.Failed = Failed
 		res.Reached = Reached
 		res.Observed = Observed
 		results = append(results, res)
 	}
+	return writeResults(pkg, results)
+}
+
+// replayWatchdog bounds one replayed case (every harness finishes in milliseconds natively).
+const replayWatchdog = 20 * time.Second
+
+func writeResults(pkg string, results []ReplayResult) error {
 	out := os.Getenv("VERIF_REPLAY_OUT")
 	b, _ := json.MarshalIndent(results, "", " ")
 	slug := ""
